@@ -180,6 +180,10 @@ func check(c *reqcase.Case, rq *reqcase.ReqSpec, ob reqcase.Obs) (string, bool) 
 		return fmt.Sprintf("request %s payload %s: handler saw header %v, sent %v", rq.Subject, rq.Payload, r.Header, wantHeader), nt
 	}
 	// outcome mapping
+	if len(ob.Resp) == 0 {
+		// every handler outcome maps to a response (a missing reply becomes system.internalError)
+		return fmt.Sprintf("request %s script %s: handler %s ran but the request got no response at all", rq.Subject, rq.Script, d.Marker), true
+	}
 	if len(ob.Resp) != 1 {
 		return "", nt
 	}
